@@ -31,6 +31,8 @@ fn dispatch(prop: &str, ctx: &Ctx, replay: Option<&[String]>) -> bool {
     "C10" => p!(c10),
     "C11" => p!(c11),
     "C12" => p!(c12),
+    "C13" => p!(c13),
+    "C14" => p!(c14),
     _ => false,
   }
 }
